@@ -9,7 +9,7 @@
    (bin/leaf-search then looks for a concrete differing input). *)
 From Coq Require Import ZArith Lia Bool List.
 From Coq Require Import ZifyBool.
-From Arsenal Require Import Util Bits Gran Tlsf SizeClass Pass GoSem GenLeaf.
+From Arsenal Require Import Util Bits Gran Tlsf SizeClass Pass Linear SyncMem GoSem GenLeaf.
 Open Scope Z_scope.
 Ltac Zify.zify_post_hook ::= Z.to_euclidean_division_equations.
 
@@ -296,3 +296,47 @@ Proof.
   case_ifs; cbn; try lia; split; reflexivity.
 Qed.
 Print Assumptions gen_incrementCounters_eq.
+
+(* ------------------------------------------------------------------ memutils/metadata/linear.go *)
+
+(* blocksOnSamePage(resourceOffset1, resourceSize1, resourceOffset2, pagesize int) bool: the three
+   explicit panics are the model's None *)
+Definition page_outcome (r : option bool) : outcome bool unit :=
+  match r with Some b => Ret b | None => Panic tt end.
+
+Theorem gen_blocksOnSamePage_eq off1 size1 off2 pagesize :
+  -2 ^ 63 < off1 + size1 < 2 ^ 63 -> -2 ^ 63 < pagesize <= 2 ^ 63 ->
+  GenLeaf.blocksOnSamePage off1 size1 off2 pagesize
+  = page_outcome (blocks_on_same_page off1 size1 off2 pagesize).
+Proof.
+  intros Hsum Hpage. pows.
+  unfold GenLeaf.blocksOnSamePage, blocks_on_same_page, page_outcome, go_and, go_not_i64. cbv zeta.
+  rewrite (wrap_i64_id (off1 + size1)) by lia.
+  destruct (off1 + size1 >? off2); [reflexivity|].
+  destruct (size1 <? 1); [reflexivity|].
+  destruct (pagesize <? 1); [reflexivity|].
+  replace (wrap_i64 (off1 + size1 - 1)) with (off1 + size1 - 1) by (unfold GoSem.wrap_i64; lia).
+  rewrite (wrap_i64_id (pagesize - 1)) by lia. reflexivity.
+Qed.
+Print Assumptions gen_blocksOnSamePage_eq.
+
+(* ------------------------------------------------------------------ vam/internal/vulkan/sync_memory.go *)
+
+(* postMapUnmap() bool: result, then delayCounter (uint32), statusCounter (int32), extraMapping
+   after the call.  The model writes the same wrap-around, so no range condition is needed.
+   Second conjunct: the model changes nothing but these three fields. *)
+Theorem gen_postMapUnmap_eq s :
+  GenLeaf.postMapUnmap (delayCounter s) (statusCounter s) (extra s)
+  = (snd (post_map_unmap s), delayCounter (fst (post_map_unmap s)),
+     statusCounter (fst (post_map_unmap s)), extra (fst (post_map_unmap s)))
+  /\ fst (post_map_unmap s)
+     = set_extra (set_counters s (delayCounter (fst (post_map_unmap s))) (statusCounter (fst (post_map_unmap s))))
+                 (extra (fst (post_map_unmap s))).
+Proof.
+  destruct s as [refs mp d st ex fr].
+  unfold GenLeaf.postMapUnmap, post_map_unmap, set_extra, set_counters, map_delay. cbn.
+  change (SyncMem.wrap_u32 (d + 1)) with (GoSem.wrap_u32 (d + 1)).
+  change (SyncMem.wrap_i32 (st + 1)) with (GoSem.wrap_i32 (st + 1)).
+  case_ifs; cbn; try lia; split; reflexivity.
+Qed.
+Print Assumptions gen_postMapUnmap_eq.
